@@ -17,7 +17,23 @@ from .frontend import REPO, PKG, AnalysisError
 
 def _load_variants():
     from .variants import VARIANTS
-    return list(VARIANTS) + seeded_variants()
+    return list(VARIANTS) + seeded_variants() + benign_variants()
+
+
+def benign_variants():
+    """behaviour-preserving refactorings written by independent agents (/verif/benign/<id>/patch.diff, each with an
+    equivalence script that prints the same digest with and without it): every rule must stay silent and decided"""
+    from .rules import load_all, RULES
+    load_all()
+    base = os.path.join(os.path.dirname(os.path.dirname(os.path.abspath(__file__))), "benign")
+    out = []
+    if not os.path.isdir(base):
+        return out
+    for d in sorted(os.listdir(base)):
+        pp = os.path.join(base, d, "patch.diff")
+        if os.path.exists(pp):
+            out.append(dict(name=f"benign {d}", rules=sorted(RULES), edits=[], patch=pp, names=[], expect="silent"))
+    return out
 
 
 def seeded_variants():
